@@ -114,6 +114,22 @@ def run(ctx):
             ok = o.kind == 'ret' and strip_site(o.val) == ('ctor', 'Err', (('ctor', 'LdapError::MismatchedStreamType', ()),))
             ctx.add('U3.tcp-mismatched-stream', 'non-Tcp', loc(B.root), ok, 'a pre-opened stream that is not TCP must be rejected with MismatchedStreamType')
 
+    # a new connection is dialled only when the settings carry no pre-opened stream at all (whatever its kind: a cloned settings
+    # value holds StdStream::Invalid); decided on the path condition of every dialling path, so a catch-all arm is seen
+    n_dial = 0
+    for o in outs:
+        con = [e for e in o.st.ev if e[0] == 'call' and e[1].endswith('TcpStream::connect')]
+        if not con:
+            continue
+        n_dial += 1
+        ss = ('field', ('param', 'settings'), 'std_stream')
+        # (the settings value may have gone through a builder call such as set_starttls(false) first: it is still the caller's)
+        is_ss = lambda v: v[0] == 'field' and v[2] == 'std_stream' and (v[1] == ss[1] or absx.leaves(v[1], lambda x: x == ss[1]) != [])
+        none = absx.pc_variant([(strip_site(a), t) for a, t in o.st.pc], is_ss, 'None')
+        ctx.add('U3.dial-only-without-preopened-stream', 'new_tcp', loc(con[0][3]), none is True,
+                'the TCP constructor dials the URL\'s address on a path that has not established that no pre-opened stream was supplied: a stream of the wrong or invalid kind is silently ignored instead of being rejected with MismatchedStreamType')
+    ctx.floor('U3.dial', 'dialling paths of the TCP constructor', n_dial, 4)
+
     # dispatcher
     D = hirq.Body(f, f.body(AC + 'from_url_with_settings'))
     ctx.analysed['bodies'].add(D.path)
